@@ -6,11 +6,10 @@
 From Coq Require Import ZArith List Bool String Ascii.
 Import ListNotations.
 Open Scope Z_scope.
-Open Scope string_scope.
 
 Definition digit (k : Z) : ascii := ascii_of_nat (48 + Z.to_nat k).
-Definition two (v : Z) : string := String (digit (v / 10)) (String (digit (v mod 10)) "").
-Definition four (v : Z) : string := two (v / 100) ++ two (v mod 100).
+Definition two (v : Z) : string := String (digit (v / 10)) (String (digit (v mod 10)) EmptyString).
+Definition four (v : Z) : string := (two (v / 100) ++ two (v mod 100))%string.
 
 (* match.groupdict(): year always present; tz = (negative sign?, hour, minute) of (?P<tz_hour>[+-]hh):(?P<tz_minute>mm),
    None for 'Z' and for dates without a time *)
@@ -23,14 +22,14 @@ Definition is_some {X} (o : option X) : bool := match o with Some _ => true | No
 Definition turn (field : option Z) (day_or_month : bool) (fmt : Z -> string) (st : string * bool) : string * bool :=
   let '(pdf_date, found) := st in
   match field with
-  | Some v => (fmt v ++ pdf_date, true)
-  | None => if found then ((if day_or_month then "01" else "00") ++ pdf_date, found) else (pdf_date, found)
+  | Some v => ((fmt v ++ pdf_date)%string, true)
+  | None => if found then (((if day_or_month then "01" else "00") ++ pdf_date)%string, found) else (pdf_date, found)
   end.
 
 Inductive derr := EAssertMinute | EAssertTzMinute.
 
 Definition w3c_date_to_pdf (g : groups) : derr + string :=
-  let st := ("", is_some (g_hour g)) in
+  let st := (EmptyString, is_some (g_hour g)) in
   let st := turn (g_second g) false two st in
   let st := turn (g_minute g) false two st in
   let st := turn (g_hour g) false two st in
@@ -42,12 +41,11 @@ Definition w3c_date_to_pdf (g : groups) : derr + string :=
     if negb (is_some (g_minute g)) then inl EAssertMinute
     else match g_tz g with
          | Some (neg, h, m) =>
-             let tz_hour := if neg then - h else h in          (* int(groups['tz_hour']) *)
-             (* f"{tz_hour:+03d}'{tz_minute:02d}" *)
-             inr ("D:" ++ pdf_date ++ (if tz_hour <? 0 then "-" else "+") ++ two (Z.abs tz_hour) ++ "'" ++ two m)
-         | None => inr ("D:" ++ pdf_date ++ "Z")
+             (* f"{groups['tz_hour']}'{groups['tz_minute']}": the matched texts, sign included *)
+             inr ("D:" ++ pdf_date ++ (if neg then "-" else "+") ++ two h ++ "'" ++ two m)%string
+         | None => inr ("D:" ++ pdf_date ++ "Z")%string
          end
-  else inr ("D:" ++ pdf_date).
+  else inr ("D:" ++ pdf_date)%string.
 
 (* what the regular expression can produce *)
 Definition in_range (lo hi : Z) (o : option Z) : Prop := match o with Some v => lo <= v <= hi | None => True end.
@@ -109,15 +107,15 @@ Fixpoint opt_fields (n : nat) (s : string) : option (list Z * string) :=
   end.
 Definition parse_tz (s : string) : option ptz :=
   match s with
-  | "" => Some PNone
+  | EmptyString => Some PNone
   | String c r =>
-      if Ascii.eqb c "Z" then (match r with "" => Some PZ | _ => None end)
-      else if Ascii.eqb c "+" || Ascii.eqb c "-" then
+      if Ascii.eqb c "Z"%char then (match r with EmptyString => Some PZ | _ => None end)
+      else if Ascii.eqb c "+"%char || Ascii.eqb c "-"%char then
         match parse2 r with
         | Some (h, String q r2) =>
-            if Ascii.eqb q "'" then
+            if Ascii.eqb q "'"%char then
               match parse2 r2 with
-              | Some (m, "") => Some (POff ((if Ascii.eqb c "-" then -1 else 1) * (60 * h + m)))
+              | Some (m, EmptyString) => Some (POff ((if Ascii.eqb c "-"%char then -1 else 1) * (60 * h + m)))
               | _ => None
               end
             else None
@@ -128,7 +126,7 @@ Definition parse_tz (s : string) : option ptz :=
 Definition parse_pdf_date (s : string) : option pdfdate :=
   match s with
   | String d (String c r) =>
-      if Ascii.eqb d "D" && Ascii.eqb c ":" then
+      if Ascii.eqb d "D"%char && Ascii.eqb c ":"%char then
         match parse4 r with
         | Some (y, r1) =>
             match opt_fields 5 r1 with
